@@ -128,6 +128,14 @@ func (c *Ctx) benignClass(si *siteInfo, l Lit) string {
 			return "ResultOf comma-ok"
 		}
 	}
+	if lenCheck(l) {
+		// "no annotations of this kind at all" fast path on a list of PackageAnnotations
+		for _, side := range []ssa.Value{l.X, l.Y} {
+			if x := lenOf(side); x != nil && strings.Contains(P.Desc(x), ".annotations.PackageAnnotations.") && strings.HasSuffix(P.Desc(x), "Annotations)") {
+				return "empty annotation list fast path"
+			}
+		}
+	}
 	if !l.Pos && c.isEmptyIndexCall(l) {
 		// fast path "index is empty": membership in an empty index is false anyway
 		return "empty-index fast path"
